@@ -187,8 +187,37 @@ def pw_key(rng):
     return rng.choice(["password", "password", "password", "Password", "PASSWORD", "passWord"])
 
 
-def gen_config(rng, lits, rich=False, dotted=True):
-    """A Burrow configuration (nested dicts; password leaves are PW objects) and its summary."""
+CHILD_NAMES = ["east", "sub", "b", "Prod", "password", "username", "class-name", "extras", "sasl", "tls", "client-profile", "Password"]
+FAMILY_SECTIONS = ("sasl", "tls", "client-profile", "cluster", "consumer", "notifier", "storage")
+
+
+def entry_names(sec, depth=3):
+    """dotted names of the entries of a section and of the entries nested inside them: x, x.y, x.y.z (viper reads
+    [sasl.prod.east] as the profile "prod.east" INSIDE the profile "prod")"""
+    out = []
+
+    def walk(d, prefix, k):
+        for name, v in d.items():
+            if isinstance(v, dict):
+                out.append(prefix + name)
+                if k > 1:
+                    walk(v, prefix + name + ".", k - 1)
+    if isinstance(sec, dict):
+        walk(sec, "", depth)
+    return out
+
+
+def is_pw_path(path):
+    """mirror of ConfigRead.is_pw: sasl.<s1>...<sk>.password (profiles nest), notifier.<n>.password"""
+    return len(path) >= 3 and path[-1] == "password" and (path[0] == "sasl" or (path[0] == "notifier" and len(path) == 3))
+
+
+def gen_config(rng, lits, rich=False, dotted=True, nested=False):
+    """A Burrow configuration (nested dicts; password leaves are PW objects) and its summary.
+    nested=True adds NESTED-NAME FAMILIES to every section that holds or references profiles/modules: entries x, x.y
+    (and x.y.z) where x.y is configured inside x -- the parent explicit or only implied by its child, child names also
+    key words (password, username, class-name ...) -- and makes client profiles, clusters and consumers point at the
+    parent and at each child."""
     pwn = [0]
 
     def pw():
@@ -317,7 +346,115 @@ def gen_config(rng, lits, rich=False, dotted=True):
         notifiers[gen_name(rng, lits, used, dotted)] = n
     if notifiers:
         cfg["notifier"] = notifiers
-    info["n_pw"] = pwn[0]
+    info["families"] = 0
+    if nested:
+        def mk_sasl():
+            return {"username": "fam-" + str(rng.randrange(999)), pw_key(rng): pw(), "handshake-first": rng.random() < 0.5,
+                    "mechanism": "SCRAM-SHA-512"}
+
+        def mk_tls():
+            return {"certfile": "/etc/f-cert.pem", "keyfile": "/etc/f-key.pem", "cafile": "/etc/f-ca.pem", "noverify": True}
+
+        def mk_profile(sasl_ref=None, tls_ref=None):
+            p = {"client-id": "burrow-f" + str(rng.randrange(1000)), "kafka-version": "2.0.0"}
+            sn, tn = entry_names(cfg.get("sasl", {})), entry_names(cfg.get("tls", {}))
+            if sasl_ref or sn:
+                p["sasl"] = sasl_ref or rng.choice(sn)
+            if tls_ref or (tn and rng.random() < 0.5):
+                p["tls"] = tls_ref or rng.choice(tn)
+            return p
+
+        def mk_cluster(ref=None):
+            c = {"class-name": "kafka", "servers": ["kf:9092"], "topic-refresh": 60, "offset-refresh": 10}
+            pn = entry_names(cfg.get("client-profile", {}))
+            if ref or pn:
+                c["client-profile"] = ref or rng.choice(pn)
+            return c
+
+        def mk_consumer(ref=None):
+            c = {"class-name": "kafka", "cluster": rng.choice(list(cfg["cluster"])), "servers": ["kf:9092"], "group-allowlist": ".*",
+                 "offsets-topic": "__consumer_offsets", "start-latest": True}
+            pn = entry_names(cfg.get("client-profile", {}))
+            if ref or pn:
+                c["client-profile"] = ref or rng.choice(pn)
+            return c
+
+        def mk_notifier():
+            cl = rng.choice(["http", "email", "slack", "null"])
+            n = {"class-name": cl, "group-allowlist": ".*", "interval": 30, "threshold": 2, "template-open": "o.tmpl",
+                 "template-close": "c.tmpl", "send-close": True, "username": "fam" + str(rng.randrange(99)), pw_key(rng): pw(),
+                 "server": "smtp.f.example", "port": 25, "from": "f@example.org", "to": "g@example.org", "url-open": "http://f/open"}
+            if rng.random() < 0.5:
+                n["extras"] = {"k": "v" + str(rng.randrange(99))}
+            return n
+
+        def mk_storage():
+            return {"class-name": "inmemory", "intervals": 7, "min-distance": 2, "expire-group": 99, "group-allowlist": "fam.*"}
+        makers = {"sasl": mk_sasl, "tls": mk_tls, "client-profile": mk_profile, "cluster": mk_cluster, "consumer": mk_consumer,
+                  "notifier": mk_notifier, "storage": mk_storage}
+
+        def family(section):
+            sec = cfg.setdefault(section, {})
+            explicit = bool(sec) and rng.random() < 0.55
+            if explicit:
+                x = rng.choice([k for k in sec if isinstance(sec[k], dict)])
+            else:
+                x = gen_name(rng, [], {k.lower() for k in sec}, dotted_ok=False)
+                # the parent exists only because its child does (half of the time), or is a full entry of its own
+                sec[x] = {} if rng.random() < 0.5 else makers[section]()
+            names, cur, cname = [x], sec[x], x
+            for _ in range(1 + (rng.random() < 0.4)):
+                taken = {k.lower() for k in cur}
+                y = rng.choice([c for c in CHILD_NAMES if c.lower() not in taken])
+                cur[y] = makers[section]()
+                cname = cname + "." + y
+                names.append(cname)
+                cur = cur[y]
+            info["families"] += 1
+            return names
+        # profiles first (so that the referencing entries can point at every member), then the modules
+        fam = {sec: [] for sec in FAMILY_SECTIONS}
+        for sec in ("sasl", "tls"):
+            for _ in range(1 + (rng.random() < 0.3)):
+                fam[sec] += family(sec)
+        # every member of a SASL/TLS family is referenced by a client profile of its own ...
+        profs = cfg.setdefault("client-profile", {})
+        made = []
+        for i, f in enumerate(fam["sasl"]):
+            t = fam["tls"][i % len(fam["tls"])] if fam["tls"] and rng.random() < 0.6 else None
+            nm = "fp%d" % i
+            profs[nm] = mk_profile(sasl_ref=f if rng.random() < 0.85 else _case_variants(rng, f), tls_ref=t)
+            made.append(nm)
+        for i, f in enumerate(fam["tls"]):
+            nm = "ft%d" % i
+            profs[nm] = mk_profile(tls_ref=f)
+            made.append(nm)
+        fam["client-profile"] += family("client-profile")
+        # ... and every such client profile, and every member of a client-profile family, by a cluster AND a consumer
+        for i, pn in enumerate(made + fam["client-profile"]):
+            cfg["cluster"]["fc%d" % i] = mk_cluster(ref=pn)
+            cfg.setdefault("consumer", {})["fk%d" % i] = mk_consumer(ref=pn)
+        for sec in ("cluster", "consumer", "notifier", "storage"):
+            if rng.random() < 0.8:
+                fam[sec] += family(sec)
+        info["family_names"] = {k: v for k, v in fam.items() if v}
+    # a PW leaf counts as a password only where the property says so (is_pw_path): something called "password" inside a
+    # notifier's extras, or inside a nested non-module such as notifier.<n>.<child>, is an ordinary setting
+    live = []
+
+    def settle(t, path):
+        for k in list(t):
+            v, pth = t[k], path + (k.lower(),)
+            if isinstance(v, dict):
+                settle(v, pth)
+            elif isinstance(v, PW):
+                if is_pw_path(pth):
+                    v.idx = len(live)
+                    live.append(v)
+                else:
+                    t[k] = "not-a-password-%d" % rng.randrange(10 ** 6)
+    settle(cfg, ())
+    info["n_pw"] = len(live)
     info["sections"] = {k: (len(v) if isinstance(v, dict) else 1) for k, v in cfg.items()}
     info["dotted"] = sum(1 for sec in cfg.values() if isinstance(sec, dict) for k in sec if "." in k)
     return cfg, info
@@ -351,12 +488,13 @@ def gen_tokens(rng, cfg):
 
 
 def password_paths(cfg, path=()):
-    """(path, leaf) of every leaf at a password path, according to the property: <sasl|notifier>.<name>.password"""
+    """(path, leaf) of every leaf at a password path: sasl.<name>.password with a possibly dotted (nested) profile name,
+    notifier.<module>.password"""
     out = []
     if isinstance(cfg, dict):
         for k, v in cfg.items():
             out += password_paths(v, path + (k.lower(),))
-    elif len(path) == 3 and path[0] in PW_SECTIONS and path[2] == "password":
+    elif is_pw_path(path):
         out.append((path, cfg))
     return out
 
@@ -414,8 +552,15 @@ def param_pool(rng, cfg, lits, section, extra=6):
     def add(v, cl):
         if v is not None and (v, cl) not in out:
             out.append((v, cl))
-    names = list(cfg.get(section, {})) if section else \
-        [n for sec in ("sasl", "notifier", "client-profile", "cluster", "tls") for n in list(cfg.get(sec, {}))[:2]]
+    if section:
+        names = entry_names(cfg.get(section, {}))
+        if len(names) > 9:      # keep every top-level name, sample the nested ones
+            top = [n for n in names if "." not in n]
+            deep = [n for n in names if "." in n]
+            rng.shuffle(deep)
+            names = top[:9] + deep[:6]
+    else:
+        names = [n for sec in ("sasl", "notifier", "client-profile", "cluster", "tls") for n in entry_names(cfg.get(sec, {}))[:3]]
     for n in names:
         add(n, "configured")
         add(n.upper(), "case")
@@ -428,7 +573,8 @@ def param_pool(rng, cfg, lits, section, extra=6):
     for n in others[:3]:
         add(n, "other-section")
     for sec in PW_SECTIONS:
-        for n in list(cfg.get(sec, {}))[:2]:
+        pn = entry_names(cfg.get(sec, {}))
+        for n in pn[:2] + [x for x in pn if "." in x][:2]:
             add(sec + "." + n + ".password", "pw-path")
             add(n + ".password", "dotted-password")
     add("password", "keyword")
